@@ -22,6 +22,15 @@ func C06(c *core.Ctx) {
 		return strings.HasPrefix(k, "R8.4:") && strings.Contains(k, "RibEntry")
 	})
 
+	// ---- R6.10 (shared with C08 R8.4) the FIB the routes are flattened into prunes only
+	// empty nodes: a prune walk that tests the start node instead of the node it is about to
+	// unlink (in either twin of the name-tree FIB's prune function, or in the hash-table
+	// FIB's) detaches a prefix that still has next hops when a route below it is withdrawn —
+	// the prefix keeps its routes in the RIB and forwards to nobody
+	c.Import(C08, "R6.10", "a FIB prune walk can detach an entry that still holds next hops: a prefix that has routes loses its FIB entry when a route below it is withdrawn", 2, func(k string) bool {
+		return strings.HasPrefix(k, "R8.4:") && (strings.Contains(k, "fibStrategyTreeEntry") || strings.Contains(k, "FibStrategy"))
+	})
+
 	up := c.Fn("R6.1", "fw/table", "RibEntry", "updateNexthopsEnc")
 	if up != nil {
 		r := ssa.Value(up.Params[0])
